@@ -133,7 +133,10 @@ def _provenance(lib, ev, body, s, v, fields):
             for s2 in b2.sites():
                 for o in mir.site_operands(s2):
                     cst = o.get("const")
-                    if cst and cst["ty"].get("fndef") == body.name:
+                    if cst and (cst["ty"].get("fndef") == body.name or cst["ty"].get("closure") == body.name):
+                        uses.append((b2, s2))
+                    pl = mir.op_place(o)
+                    if pl is not None and (pl.get("ty") or {}).get("closure") == body.name and s2.si is None:
                         uses.append((b2, s2))
                 if s2.si is None and s2.node["k"] == "call" and s2.node["callee"].get("path") == body.name:
                     uses.append((b2, s2))
@@ -239,7 +242,11 @@ def run(ctx):
         for v in (sw["variants"] if sw else []):
             t = mir.variant_target(sw, d, v)
             blocks = d.reach_from(t) if t is not None else set()
+            # fields of this variant read in its arm (possibly stored in a local and formatted after the match)
+            arm_only = blocks - set().union(*[d.reach_from(mir.variant_target(sw, d, v2)) for v2 in sw["variants"] if v2 != v and mir.variant_target(sw, d, v2) is not None and
+                                              mir.variant_target(sw, d, v2) != t] or [set()])
             shown = set()
+            written = any(d.blocks[bb]["term"]["k"] == "call" and method(d.blocks[bb]["term"]) in ("write_fmt", "write_str", "fmt") for bb in blocks)
             for bb in blocks:
                 tt = d.blocks[bb]["term"]
                 if tt["k"] == "call" and method(tt) in ("write_fmt", "write_str", "fmt"):
@@ -249,6 +256,13 @@ def run(ctx):
                                 for e in st[2]:
                                     if e != "*" and e[0] == "f" and e[2] == v:
                                         shown.add(e[3])
+            if written:
+                for bb in arm_only:
+                    for si in range(len(d.blocks[bb]["stmts"])):
+                        for pl in mir.site_reads(mir.Site(d, bb, si)):
+                            for e in d.canon(pl)["p"]:
+                                if isinstance(e, dict) and "f" in e and e.get("variant") == v and e.get("adt", "").endswith("ParserError"):
+                                    shown.add(e["f"])
             adt = lib.adts["parser::ParserError"]
             nf = len([x for x in adt["variants"] if x["name"] == v][0]["fields"])
             ok = len(shown) == nf
